@@ -45,7 +45,24 @@ def varcase(rng, s):
     return "".join(c.upper() if rng.random() < 0.5 else c for c in s)
 
 
+def rand_num(rng):
+    r = rng.random()
+    if r < 0.4:
+        return "".join(rng.choice("+-0123456789x_ ") if rng.random() < 0.15 else rng.choice("0123456789") for _ in range(rng.randint(1, 24))).replace(" ", "") or "0"
+    base = rng.choice([2 ** 63, 2 ** 64, 2 ** 63 - 1, 2 ** 64 - 1, 1024, 65535, 0, 10 ** 18, 10 ** 19]) + rng.randint(-12, 12)
+    return rng.choice(["", "+", "-"]) + rng.choice(["", "0", "000"]) + str(abs(base)) + rng.choice(["", "", "", "0", "x"])
+
+
+def rand_ip(rng):
+    return "".join(rng.choice(".") if rng.random() < 0.25 else rng.choice("0012345689") for _ in range(rng.randint(1, 16)))
+
+
 def value_for(rng, name, valid):
+    if not valid and rng.random() < 0.35:
+        if name in ("shardnum", "databases", "port"):
+            return rand_num(rng)
+        if name == "host":
+            return rand_ip(rng) if rng.random() < 0.7 else ".".join(str(rng.choice([0, 1, 9, 10, 99, 100, 199, 200, 249, 250, 255, 256, 260, 300, 999, "00", "01", ""])) for _ in range(rng.choice([3, 4, 4, 4, 5])))
     if name in ("shardnum", "databases"):
         if valid:
             return str(rng.choice([1, 2, 3, 4, 8, 15, 16, 17, 32, 64, 100, 1024, rng.randint(1, 70000)]))
